@@ -228,10 +228,20 @@ class Vec(Sym):
 
     def _sum(self, ctx):
         if self.kind == 'bool':
+            return SInt(self.count(ctx))
+        raise Unsupported('sum of %s array' % self.kind)
+
+    def count(self, ctx):
+        """number of True entries; one symbol per array object (valid while the array is not written to)"""
+        c = getattr(self, '_count', None)
+        if c is None or self._count_sel is not self._sel:
             c = ctx.int('count(%s)' % self.name, report=False)
             ctx.assume(z3.And(0 <= c, c <= self.n), axiom='count of True entries lies in [0, len]')
-            return SInt(c)
-        raise Unsupported('sum of %s array' % self.kind)
+            inv = getattr(self, '_inv_of', None)
+            if inv is not None:  # count(~m) = len - count(m)
+                ctx.assume(c == self.n - inv.count(ctx))
+            self._count, self._count_sel = c, self._sel
+        return c
 
     def _all(self, ctx):
         if self.kind == 'bool':
@@ -429,7 +439,12 @@ class Vec(Sym):
     def unop(self, ctx, op):
         s = self._sel if self.base is None else self.sel
         if op == '~' and self.kind == 'bool':
-            return Vec('bool', self.n, lambda i: z3.Not(s(i)), '~' + self.name)
+            inv = getattr(self, '_inv', None)
+            if inv is None or self._inv_sel is not self._sel:
+                inv = Vec('bool', self.n, lambda i: z3.Not(s(i)), '~' + self.name)
+                inv._inv_of = self
+                self._inv, self._inv_sel = inv, self._sel
+            return inv
         if op == '-' and self.kind == 'int':
             return Vec('int', self.n, lambda i: -s(i), '-' + self.name)
         if op == '-' and self.kind == 'fp':
@@ -464,8 +479,7 @@ class MaskSel(Sym):
         """An explicit vector of the selected entries: length = count(mask); every entry is some selected element,
         every selected element occurs (in order; order is not modelled)."""
         a, m = self.arr, self.mask
-        c = ctx.int('count(%s)' % m.name, report=False)
-        ctx.assume(z3.And(0 <= c, c <= a.n))
+        c = m.count(ctx)
         pos = z3.Function(ctx.name('pos!%s' % m.name), I, I)  # k-th selected position
         rank = z3.Function(ctx.name('rank!%s' % m.name), I, I)
         ctx.assume(qforall(1, lambda k: z3.Implies(z3.And(0 <= k, k < c), z3.And(0 <= pos(k), pos(k) < a.n, m.sel(pos(k)), rank(pos(k)) == k))),
@@ -550,7 +564,9 @@ class Numpy:
             return x.as_array(ctx)
         raise Unsupported('numpy.asarray of %r' % (x,))
 
-    np_array = np_asarray
+    def np_array(self, ctx, x, dtype=None):
+        r = self.np_asarray(ctx, x, dtype)
+        return r.copy() if isinstance(r, Vec) else r
 
     def np_empty(self, ctx, shape, dtype=None):
         return Vec.fresh(ctx, 'empty', _kind_of_dtype(ctx, dtype), n=_shape1(ctx, shape), report=False)
